@@ -1,0 +1,271 @@
+//! Verification hooks (compiled only with `--cfg cormacrelf_incremental_rs_verif`; add-only).
+//!
+//! * `IncrState::verif_snapshot()` — the engine's logical state, one line per live node, nodes
+//!   named by creation order, plus the recompute heap and counters;
+//! * `IncrState::verif_audit()` — a walk over the *representation* (index arrays, heap markers,
+//!   handler counts) in the spirit of `Node.invariant` / `State.invariant` of the OCaml library.
+use std::collections::HashMap;
+use std::fmt::Write;
+
+use crate::node::{ErasedNode, NodeId};
+use crate::state::IncrStatus;
+use crate::{Incr, IncrState, NodeRef, Observer, Value};
+
+fn alive_nodes(state: &crate::state::State) -> (Vec<(usize, NodeRef)>, HashMap<NodeId, usize>) {
+    let reg = state.verif_registry.borrow();
+    let mut v = vec![];
+    let mut ix = HashMap::new();
+    for (i, w) in reg.iter().enumerate() {
+        if let Some(n) = w.upgrade() {
+            ix.insert(n.id(), i);
+            v.push((i, n));
+        }
+    }
+    (v, ix)
+}
+
+impl<T> Incr<T> {
+    /// creation-order index of this node
+    pub fn verif_index(&self) -> usize {
+        let state = self.node.state();
+        let reg = state.verif_registry.borrow();
+        let me = self.node.id();
+        reg.iter()
+            .position(|w| w.upgrade().map_or(false, |n| n.id() == me))
+            .expect("node not in registry")
+    }
+}
+
+impl<T: Value> Observer<T> {
+    pub fn verif_state(&self) -> &'static str {
+        use crate::internal_observer::ObserverState::*;
+        match self.verif_internal_state() {
+            Created => "Created",
+            InUse => "InUse",
+            Disallowed => "Disallowed",
+            Unlinked => "Unlinked",
+        }
+    }
+}
+
+impl IncrState {
+    pub fn verif_num_nodes(&self) -> usize {
+        self.inner.verif_registry.borrow().len()
+    }
+
+    /// one line per live node + `heap` + `stats`
+    pub fn verif_snapshot(&self) -> Vec<String> {
+        let t = &self.inner;
+        let (nodes, ix) = alive_nodes(t);
+        let name = |id: NodeId| ix.get(&id).map_or("?".to_string(), |i| i.to_string());
+        let mut out = vec![];
+        for (i, n) in nodes.iter() {
+            let mut s = String::new();
+            let b = |x: bool| if x { 1 } else { 0 };
+            let pci = n.parent_child_indices.borrow();
+            let parents = n.parents.borrow();
+            let par: Vec<String> = parents
+                .iter()
+                .enumerate()
+                .map(|(pi, p)| {
+                    let pname = p.upgrade().map_or("dead".to_string(), |p| name(p.id()));
+                    let ci = pci.my_child_index_in_parent_at_index.get(pi).copied().unwrap_or(-99);
+                    format!("{}:{}", pname, ci)
+                })
+                .collect();
+            let val = match n.value_as_any() {
+                Some(v) => format!("{:?}", &*v),
+                None => "-".to_string(),
+            };
+            write!(
+                s,
+                "n{} {} h={} rch={} r={} c={} valid={} nec={} val={} par=[{}] nh={} obs={}",
+                i,
+                n.verif_kind_tag(),
+                n.height.get(),
+                n.height_in_recompute_heap.get(),
+                n.recomputed_at.get().0,
+                n.changed_at.get().0,
+                b(n.is_valid()),
+                b(n.is_necessary()),
+                val,
+                par.join(","),
+                n.num_on_update_handlers.get(),
+                n.observers.borrow().len(),
+            )
+            .unwrap();
+            out.push(format!("snap {}", s));
+        }
+        // heap
+        let buckets: Vec<String> = t
+            .recompute_heap
+            .verif_buckets()
+            .iter()
+            .map(|(h, q)| {
+                let names: Vec<String> = q.iter().map(|n| format!("n{}", name(n.id()))).collect();
+                format!("{}:[{}]", h, names.join(","))
+            })
+            .collect();
+        let (seen, _) = t.adjust_heights_heap.borrow().verif_info();
+        out.push(format!(
+            "heap len={} max={} seen={} {}",
+            t.recompute_heap.len(),
+            t.recompute_heap.max_height_allowed(),
+            seen,
+            buckets.join(" ")
+        ));
+        let st = self.stats();
+        out.push(format!(
+            "stats created={} changed={} recomputed={} invalidated={} became_necessary={} became_unnecessary={} necessary={} stable={} status={:?} num={}",
+            st.created, st.changed, st.recomputed, st.invalidated, st.became_necessary, st.became_unnecessary,
+            st.became_necessary as i64 - st.became_unnecessary as i64,
+            self.is_stable(), t.status.get(), t.stabilisation_num.get().0
+        ));
+        out
+    }
+
+    /// representation audit; empty = consistent.  Only meaningful outside stabilise.
+    pub fn verif_audit(&self) -> Vec<String> {
+        let t = &self.inner;
+        let mut bad = vec![];
+        if t.status.get() != IncrStatus::NotStabilising {
+            return bad;
+        }
+        let (nodes, ix) = alive_nodes(t);
+        let name = |id: NodeId| ix.get(&id).map_or("?".to_string(), |i| format!("n{}", i));
+        let max_allowed = t.recompute_heap.max_height_allowed();
+        let mut necessary_count: i64 = 0;
+        let mut in_heap: HashMap<NodeId, usize> = HashMap::new();
+        let mut heap_total = 0usize;
+        for (h, q) in t.recompute_heap.verif_buckets() {
+            for n in q.iter() {
+                heap_total += 1;
+                *in_heap.entry(n.id()).or_insert(0) += 1;
+                if n.height_in_recompute_heap.get() != h as i32 {
+                    bad.push(format!("{} queued in bucket {} but height_in_recompute_heap={}", name(n.id()), h, n.height_in_recompute_heap.get()));
+                }
+                if n.height.get() != h as i32 {
+                    bad.push(format!("{} queued in bucket {} but height={}", name(n.id()), h, n.height.get()));
+                }
+                if !n.needs_to_be_computed() {
+                    bad.push(format!("{} queued but not necessary-and-stale", name(n.id())));
+                }
+            }
+        }
+        if heap_total != t.recompute_heap.len() {
+            bad.push(format!("recompute heap length {} but {} queued", t.recompute_heap.len(), heap_total));
+        }
+        let (seen, ahh_len) = t.adjust_heights_heap.borrow().verif_info();
+        if ahh_len != 0 || !t.adjust_heights_heap.borrow().is_empty() {
+            bad.push("adjust-heights heap not empty".to_string());
+        }
+        if !t.propagate_invalidity.borrow().is_empty() {
+            bad.push("propagate_invalidity stack not empty".to_string());
+        }
+        for (_i, n) in nodes.iter() {
+            let me = name(n.id());
+            let pci = n.parent_child_indices.borrow();
+            let parents = n.parents.borrow();
+            if n.is_necessary() {
+                necessary_count += 1;
+            }
+            if n.height.get() > max_allowed || n.height.get() > seen {
+                bad.push(format!("{} height {} above limit {} / max seen {}", me, n.height.get(), max_allowed, seen));
+            }
+            if n.height_in_adjust_heights_heap.get() != -1 {
+                bad.push(format!("{} still marked in adjust-heights heap", me));
+            }
+            match in_heap.get(&n.id()) {
+                Some(1) => {}
+                Some(k) => bad.push(format!("{} queued {} times", me, k)),
+                None => {
+                    if n.height_in_recompute_heap.get() != -1 {
+                        bad.push(format!("{} marked queued (height_in_recompute_heap={}) but in no bucket", me, n.height_in_recompute_heap.get()));
+                    }
+                    if n.needs_to_be_computed() {
+                        bad.push(format!("{} necessary and stale but not queued", me));
+                    }
+                }
+            }
+            // parent side of every edge
+            for (pi, p) in parents.iter().enumerate() {
+                let Some(p) = p.upgrade() else {
+                    bad.push(format!("{} has a dead parent at {}", me, pi));
+                    continue;
+                };
+                let ci = pci.my_child_index_in_parent_at_index.get(pi).copied().unwrap_or(-1);
+                if ci < 0 {
+                    bad.push(format!("{} parent {} has child index {}", me, pi, ci));
+                    continue;
+                }
+                if !p.is_necessary() {
+                    bad.push(format!("{} has unnecessary parent {}", me, name(p.id())));
+                }
+                let ppci = p.parent_child_indices.borrow();
+                let back = ppci.my_parent_index_in_child_at_index.get(ci as usize).copied().unwrap_or(-1);
+                if back != pi as i32 {
+                    bad.push(format!("edge {}->{}: child says (parent slot {}, child index {}), parent says parent slot {}", me, name(p.id()), pi, ci, back));
+                }
+                let kids = p.verif_children();
+                match kids.iter().find(|(ix, _)| *ix == ci) {
+                    Some((_, c)) if c.id() == n.id() => {}
+                    _ => bad.push(format!("edge {}->{}: parent's child {} is not this node", me, name(p.id()), ci)),
+                }
+                if p.height.get() <= n.height.get() {
+                    bad.push(format!("parent {} (h={}) not above child {} (h={})", name(p.id()), p.height.get(), me, n.height.get()));
+                }
+            }
+            for pi in parents.len()..pci.my_child_index_in_parent_at_index.len() {
+                if pci.my_child_index_in_parent_at_index[pi] != -1 {
+                    bad.push(format!("{} stale child index at free parent slot {}", me, pi));
+                }
+            }
+            // child side of every edge
+            if n.is_necessary() && n.is_valid() {
+                for (ci, c) in n.verif_children() {
+                    let back = pci.my_parent_index_in_child_at_index.get(ci as usize).copied().unwrap_or(-1);
+                    let cps = c.parents.borrow();
+                    let ok = back >= 0
+                        && cps.get(back as usize).and_then(|w| w.upgrade()).map_or(false, |p| p.id() == n.id())
+                        && c.parent_child_indices.borrow().my_child_index_in_parent_at_index.get(back as usize).copied() == Some(ci);
+                    if !ok {
+                        bad.push(format!("necessary node {} is not recorded as parent of its child {} {} (slot {})", me, ci, name(c.id()), back));
+                    }
+                    if c.height.get() >= n.height.get() {
+                        bad.push(format!("necessary node {} (h={}) not above its child {} (h={})", me, n.height.get(), name(c.id()), c.height.get()));
+                    }
+                }
+                let scope_h = n.created_in.height();
+                if n.height.get() <= scope_h {
+                    bad.push(format!("necessary node {} (h={}) not above its scope (h={})", me, n.height.get(), scope_h));
+                }
+                if !n.is_stale() && n.value_as_any().is_none() {
+                    bad.push(format!("necessary valid up-to-date node {} has no value", me));
+                }
+            }
+            if !n.is_necessary() {
+                if n.height_in_recompute_heap.get() != -1 {
+                    bad.push(format!("unnecessary node {} is scheduled", me));
+                }
+            }
+            // handler counts
+            let mut expected: i64 = n.on_update_handlers.borrow().len() as i64;
+            for (_id, o) in n.observers.borrow().iter() {
+                if let Some(o) = o.upgrade() {
+                    expected += o.num_handlers() as i64;
+                } else {
+                    bad.push(format!("{} has a dead observer entry", me));
+                }
+            }
+            if expected != n.num_on_update_handlers.get() as i64 {
+                bad.push(format!("{} num_on_update_handlers={} but {} handlers registered", me, n.num_on_update_handlers.get(), expected));
+            }
+        }
+        let st = self.stats();
+        let nec = st.became_necessary as i64 - st.became_unnecessary as i64;
+        if nec != necessary_count {
+            bad.push(format!("stats().necessary={} but {} necessary nodes", nec, necessary_count));
+        }
+        bad
+    }
+}
